@@ -40,25 +40,30 @@ pub fn duration_parse(config: &SmartCalcConfig, tokinizer: &Tokinizer, fields: &
         };
 
         let calculated_duration = match constant_type {
-            ConstantType::Year => Duration::days(365 * duration),
+            ConstantType::Year => duration.checked_mul(365).and_then(Duration::try_days),
             ConstantType::Month => {
                 let years = duration / 12;
                 let month = duration % 12;
 
-                Duration::days((365 * years) + (30 * month))
+                years.checked_mul(365).and_then(|days| days.checked_add(30 * month)).and_then(Duration::try_days)
             },
             ConstantType::Day => {
                 let years = duration / 365;
                 let month = (duration % 365) / 30;
                 let day = (duration % 365) % 30;
 
-                Duration::days((365 * years) + (30 * month) + day)
+                Duration::try_days((365 * years) + (30 * month) + day)
             },
-            ConstantType::Week => Duration::weeks(duration),
-            ConstantType::Hour => Duration::hours(duration),
-            ConstantType::Minute => Duration::minutes(duration),
-            ConstantType::Second => Duration::seconds(duration),            
+            ConstantType::Week => Duration::try_weeks(duration),
+            ConstantType::Hour => Duration::try_hours(duration),
+            ConstantType::Minute => Duration::try_minutes(duration),
+            ConstantType::Second => Duration::try_seconds(duration),            
             _ => return Err("Duration type not valid".to_string()) 
+        };
+
+        let calculated_duration = match calculated_duration {
+            Some(calculated_duration) => calculated_duration,
+            None => return Err("Duration is out of range".to_string())
         };
 
         return Ok(TokenType::Duration(calculated_duration));
@@ -76,7 +81,10 @@ pub fn combine_durations(_: &SmartCalcConfig, _: &Tokinizer, fields: &BTreeMap<S
                 _ => return Err("Duration information not valid".to_string())
             };
 
-            sum_duration = sum_duration + duration;
+            sum_duration = match sum_duration.checked_add(&duration) {
+                Some(sum_duration) => sum_duration,
+                None => return Err("Duration is out of range".to_string())
+            };
         }
 
         return Ok(TokenType::Duration(sum_duration));
